@@ -293,9 +293,12 @@ C10_Target == At("snap") =>
 C10_Distance == At("pub") /\ Cfg.stable /\ (p.estD \/ Cfg.dist \in TargetTtls(p)) => E.largest = Cfg.dist
 C10_Nothing  == At("pub") /\ ~p.everAns => E.largest = 0
 \* the path length a round reports is the TTL of a probe of that round (never a hop beyond what was probed)
+\* (once the target's distance is known from an earlier round it is reported even if this round ended before reaching
+\* it: then it is the TTL of a probe of an earlier round)
 C10_Probed   == At("pub") /\ E.largest > 0 =>
                   /\ E.largest <= Cfg.max_ttl
-                  /\ \E i \in 1..Len(p.wire) : p.wire[i].ttl = E.largest
+                  /\ \/ \E i \in 1..Len(p.wire) : p.wire[i].ttl = E.largest
+                     \/ E.largest \in DOMAIN p.acc
 C10_NoPanic  == C09_NoPanic
 
 (***************************************************************************)
